@@ -567,6 +567,35 @@ pub fn http_body_chunking() -> Value {
 				"expected": if n <= 1024 { "the same successful outcome" } else { "rejected as too large when the header is present" }});
 		}
 	}
+	// C07: a body above the limit is never returned, whatever leading whitespace it carries and however it is chunked
+	for ws in [0usize, 1, 64, 127] {
+		for over in [1usize, 60, 127, 200] {
+			let total = 1024 + over;
+			let mut b = vec![b' '; ws];
+			b.push(b'[');
+			while b.len() < total - 1 { b.push(b'1'); }
+			b.push(b']');
+			for chunks in [vec![b.clone()], vec![b[..ws + 1].to_vec(), b[ws + 1..].to_vec()], vec![b[..600].to_vec(), b[600..].to_vec()]] {
+				tried += 1;
+				if let Ok((data, _)) = read_chunks(chunks.clone(), None) {
+					return json!({"probe":"http_body_chunking","disagrees":true,
+						"input": format!("body of {total} bytes ({ws} leading spaces), limit 1024, no Content-Length, {} chunk(s)", chunks.len()),
+						"observed": format!("accepted: {} bytes handed to the RPC layer", data.len()), "expected":"rejected: the message is larger than max_request_body_size"});
+				}
+			}
+		}
+	}
+	// C07: a declared length within the limit does not switch off the counting of the actual body
+	{
+		tried += 1;
+		let mut b = b"[".to_vec();
+		while b.len() < 4000 { b.push(b'1'); }
+		b.push(b']');
+		if let Ok((data, _)) = read_chunks(vec![b.clone()], Some(100)) {
+			return json!({"probe":"http_body_chunking","disagrees":true,"input":"body of 4001 bytes, limit 1024, Content-Length header claiming 100",
+				"observed": format!("accepted: {} bytes handed to the RPC layer", data.len()), "expected":"rejected"});
+		}
+	}
 	for body in &bodies {
 		let whole = read_chunks(vec![body.clone()], None);
 		let n = body.len();
@@ -641,6 +670,9 @@ pub fn client_survives_hostile_ids() -> Value {
 			r#"[{"jsonrpc":"2.0","id":"18446744073709551615","result":1}]"#.to_string(),
 			r#"[]"#.to_string(),
 			r#"[{"jsonrpc":"2.0","id":null,"result":1}]"#.to_string(),
+			r#"[{"jsonrpc":"2.0","id":0,"result":1},{"jsonrpc":"2.0","id":18446744073709551614,"result":1}]"#.to_string(),
+			r#"[{"jsonrpc":"2.0","id":1,"result":1},{"jsonrpc":"2.0","id":4611686018427387905,"result":1}]"#.to_string(),
+			r#"[{"jsonrpc":"2.0","id":9223372036854775807,"result":1},{"jsonrpc":"2.0","id":9223372036854775808,"result":1}]"#.to_string(),
 		];
 		for msg in hostile {
 			let (c, mut peer) = mock::client(ClientBuilder::default().request_timeout(std::time::Duration::from_secs(5)));
@@ -661,7 +693,7 @@ pub fn client_survives_hostile_ids() -> Value {
 				}
 			}
 		}
-		json!({"probe":"client_survives_hostile_ids","disagrees":false,"inputs_tried":7})
+		json!({"probe":"client_survives_hostile_ids","disagrees":false,"inputs_tried":10})
 	})
 }
 
@@ -1049,6 +1081,11 @@ pub fn server_message_classification() -> Value {
 			(r#"{"jsonrpc":"2.0","id":7,"method":"add","params":[1,2]}"#, json!({"result":3,"id":7})),
 			(r#"{"jsonrpc":"2.0","id":18446744073709551615,"method":"add","params":[]}"#, json!({"result":0,"id":18446744073709551615u64})),
 			(r#"{"jsonrpc":"2.0","id":1,"method":"nope"}"#, err(-32601, json!(1))),
+			// JSON-equivalent spellings of a valid call: escaped member names / method name, reordered and unknown members
+			(r#"{"jsonrpc":"2.0","\u0069d":7,"method":"add","params":[1,2]}"#, json!({"result":3,"id":7})),
+			(r#"{"\u006asonrpc":"2.0","id":8,"\u006dethod":"a\u0064d","p\u0061rams":[1,2]}"#, json!({"result":3,"id":8})),
+			(r#"{"params":[2,2],"method":"add","extra":{"id":99},"id":5,"jsonrpc":"2.0"}"#, json!({"result":4,"id":5})),
+			("{\n\t\"jsonrpc\" : \"2.0\" ,\r\n \"id\" : 6 , \"method\" : \"add\" , \"params\" : [ 1 , 2 ] }\n", json!({"result":3,"id":6})),
 			(r#"{"jsonrpc":"2.0","id":41,"method":"boom"}"#, err(-32603, json!(41))),
 			(r#"{"jsonrpc":"2.0","id":"forty-two","method":"boom"}"#, err(-32603, json!("forty-two"))),
 			(r#"{"jsonrpc":"2.0","method":"add","params":[1,2]}"#, Value::Null),
@@ -1110,4 +1147,43 @@ pub fn server_message_classification() -> Value {
 		}
 		json!({"probe":"server_message_classification","disagrees":false,"inputs_tried":tried})
 	})
+}
+
+/// C09: when a send fails, the call whose own message failed (and earlier pending ones) complete with the disconnect CAUSE —
+/// never with the placeholder saying the cause is unknown.
+pub fn client_send_failure_reports_cause() -> Value {
+	for (what, fail_at, threads) in [("call", 1usize, 1usize), ("call", 1, 4), ("second call", 2, 1), ("batch", 1, 1), ("subscribe", 1, 1)] {
+		let rt = tokio::runtime::Builder::new_multi_thread().worker_threads(threads).enable_all().build().unwrap();
+		let out = rt.block_on(async move {
+			let (c, _peer) = mock::failing_client(ClientBuilder::default().request_timeout(std::time::Duration::from_secs(3)), fail_at);
+			let c = std::sync::Arc::new(c);
+			let mut errs: Vec<String> = Vec::new();
+			if what == "second call" {
+				let c2 = c.clone();
+				let first = tokio::spawn(async move { c2.request::<u64, _>("first", rpc_params![]).await });
+				tokio::time::sleep(std::time::Duration::from_millis(20)).await;
+				let second = c.request::<u64, _>("second", rpc_params![]).await;
+				errs.push(format!("{:?}", second.map_err(|e| e.to_string())));
+				errs.push(format!("{:?}", tokio::time::timeout(std::time::Duration::from_secs(3), first).await.map(|r| r.map(|x| x.map_err(|e| e.to_string())))));
+			} else if what == "batch" {
+				let mut b = BatchRequestBuilder::new();
+				b.insert("a", rpc_params![]).unwrap();
+				errs.push(format!("{:?}", c.batch_request::<u64>(b).await.map(|_| ()).map_err(|e| e.to_string())));
+			} else if what == "subscribe" {
+				errs.push(format!("{:?}", c.subscribe::<u64, _>("s", rpc_params![], "u").await.map(|_| ()).map_err(|e| e.to_string())));
+			} else {
+				errs.push(format!("{:?}", c.request::<u64, _>("m", rpc_params![]).await.map_err(|e| e.to_string())));
+			}
+			let disc = tokio::time::timeout(std::time::Duration::from_secs(3), c.on_disconnect()).await;
+			errs.push(format!("on_disconnect: {:?}", disc.map(|_| "resolved")));
+			errs
+		});
+		let joined = out.join(" | ");
+		if joined.contains("could not be found") || !joined.contains("broken pipe") || joined.contains("Elapsed") || joined.contains("timeout") {
+			return json!({"probe":"client_send_failure_reports_cause","disagrees":true,
+				"input": format!("{what}: the transport's send fails with 'broken pipe' on message #{fail_at}; close() takes 50 ms; {threads} worker thread(s)"),
+				"observed": joined, "expected":"every affected call fails with an error carrying the cause (broken pipe); on_disconnect resolves"});
+		}
+	}
+	json!({"probe":"client_send_failure_reports_cause","disagrees":false,"histories_tried":5})
 }
